@@ -6,7 +6,7 @@ BUDGET = {
     "quick": dict(shards=16, cases=1280, deadline=70),
     "thorough": dict(shards=16, cases=10000, deadline=1200),
 }
-DECIDING = ["sm.write", "fileio.write_file"]
+DECIDING = ["sm.write", "fileio.write_file", "c03.kf_witness"]
 RULE = ("In-memory mapsets with objects of all seven kinds on k/d beats (d in the declared divisions) of their own tempo "
         "list: tempo changes on measure lines (exact clause) and off them (1/96-beat clause), selectable=False, "
         "leading empty measures, measures whose LCM exceeds 384, unsorted lists, 3/4/6/7/8-key chart types, 1..3 charts "
@@ -48,14 +48,40 @@ def setup(ctx):
     sm.install(ctx, read=False, write=True)
 
 
+def kf_witnesses():
+    from rv import core
+
+    for f in core.load_known_findings().get("findings", []):
+        if f["id"] == "KF-C03-tempo-change-off-the-48th-beat-grid":
+            return f.get("pinned_outputs", [])
+    return []
+
+
 def pinned(tier):
-    return [dict(cls="c_locale")]
+    return [dict(cls="c_locale")] + [dict(cls="kf_witness", sm_spec=w["spec"], expected=w["sha256"], wid=i) for i, w in enumerate(kf_witnesses())]
 
 
 def run(ctx, case):
     if case.get("cls") == "c_locale":
         from rv.monitors import fileio
         return fileio.check_c_locale(ctx, "C03", "sm")
+    if case.get("cls") == "kf_witness":
+        # inputs of the open finding KF-C03: what the writer gives for them is recorded, any change is reported
+        import hashlib
+
+        from rv.gen import sm_mem as _sm
+        with ctx.quiet():
+            try:
+                got = hashlib.sha256(_sm.build(case["sm_spec"]).write().encode("utf8")).hexdigest()
+            except Exception as e:
+                got = "raises " + type(e).__name__
+        if got != case["expected"]:
+            ctx.violate("C03", "c03.kf_witness", "behaviour_changed",
+                        f"pinned input {case['wid']} of KF-C03-tempo-change-off-the-48th-beat-grid is no longer written as recorded (sha256 {case['expected'][:12]}.. -> {got[:12]}..)",
+                        dict(spec=case["sm_spec"], recorded=case["expected"], now=got), dict(witness=True))
+        else:
+            ctx.held("c03.kf_witness", "recorded_output")
+        return
     from reamber.sm.SMMapSet import SMMapSet
     from rv.gen import sm_mem
 
